@@ -8,7 +8,7 @@ per-observer logs and exceptions raised to the caller equal the list model's
 """
 from __future__ import annotations
 
-from .. import core, subjref
+from .. import core, subjref, subj_ilv
 from ..subjref import P, US
 
 PROPERTY = "C20"
@@ -76,7 +76,10 @@ def run(ctx: core.Ctx):
         "cross-observer delivery order = subscription order (DESIGN section 5: recipients minus those whose unsubscription returned before their turn)",
     ]
     subjref.run_configs(ctx, cfgs, depths)
+    subj_ilv.run_part(ctx, "Subject")  # E3: subscribe() racing the emitting thread
 
 
 def replay(case):
+    if isinstance(case, dict) and str(case.get("harness", "")).startswith("subject-race|"):
+        return subj_ilv.replay("Subject", case)
     return subjref.replay_case(case)
